@@ -237,7 +237,14 @@ type runner struct {
 	hopIdx int
 	dead   bool
 	steps  int
+	clog   bool // the application never reads Session.C: the channel is full during every library call
 }
+
+// clogged: histories run with a full notification channel (set around the clogged stage of Gen and around tbl.clog
+// lines).  Reading C is optional for an application; the tracked state must follow the C04 rules and the C05
+// invariants whether or not anybody reads it.  Notifications are dropped by the library in that situation, so the
+// C06 oracle does not apply and no tbl.step lines are emitted (the model's step includes the notifications).
+var clogged bool
 
 type outT struct {
 	op      string
@@ -291,7 +298,7 @@ func firstTime(line string) bool {
 func acceptCmp(impl, model string) bool { return model == "accept" }
 
 func newRunner(c *core.Ctx, fresh bool, class string) *runner {
-	r := &runner{c: c, fresh: fresh, class: class, V: startV()}
+	r := &runner{c: c, fresh: fresh, class: class, V: startV(), clog: clogged}
 	if fresh {
 		r.s, r.conn = freshSession()
 	} else {
@@ -311,7 +318,7 @@ func (r *runner) close() {
 }
 
 func (r *runner) report(p int, what string) {
-	if what == "" {
+	if what == "" || (r.clog && p == pC06) {
 		return
 	}
 	if r.fail[p] == "" {
@@ -333,6 +340,11 @@ func (r *runner) lib(kind string, call func(o *outT)) []packet.Notification {
 	}
 	pre, preOK := r.cur, r.curOK
 	o := outT{hostKey: "-", err: "-"}
+	if r.clog {
+		for len(r.s.C) < cap(r.s.C) {
+			r.s.C <- packet.Notification{}
+		}
+	}
 	t0 := time.Now()
 	func() {
 		defer func() {
@@ -347,6 +359,9 @@ func (r *runner) lib(kind string, call func(o *outT)) []packet.Notification {
 		r.report(pC04, kind+": "+bad)
 	}
 	notifs := drain(r.s)
+	if r.clog {
+		notifs = nil // only the fillers (and whatever the call managed to squeeze in) - not an observation
+	}
 	r.steps++
 	if o.panicv != nil {
 		r.dead = true
@@ -363,7 +378,7 @@ func (r *runner) lib(kind string, call func(o *outT)) []packet.Notification {
 	}
 	r.report(pC05, w)
 	r.report(pC04, r.ref.compare(r.s, allIPs, allMACs))
-	if r.emit && preOK && ok && op != "" {
+	if r.emit && !r.clog && preOK && ok && op != "" {
 		nt := "-"
 		if len(notifs) > 0 {
 			l := make([]string, len(notifs))
